@@ -302,14 +302,27 @@ def run(tier, seed):
                  {"fn": "bump", "args": [[[5, 1, 2, 2, 9, 9]]]},
                  {"fn": "min_needs", "args": [[{"fish": 105.0, "seaweed": 1365.0}, {"fish": 105.0}], 10]}],
         caps_hit=[],
-        part_b="real hand-offs: see pipeline engine (evidence key real_handoffs) when available",
     )
+    # part b: the real hand-offs of every pipeline execution (shared engine, cached per source tree)
+    from .. import pipeline
+    data = pipeline.explore(tier, seed)
+    pc = pipeline.coverage_for("C18", data)
+    if pc["harness_errors"]:
+        raise RuntimeError("pipeline harness errors: %s" % pc["harness_errors"][:2])
+    full = pc["controller_branches"].get("full", 0)
+    cov["real_handoffs"] = {"executions": pc["executions"], "with_all_three_rounds": full, "bound": pc["bound"], "cache": pc["cache"]}
+    for k in ("executions", "states", "transitions", "traces_validated_against_impl"):
+        cov[k] += full
+    vs = vs + [common.Violation(v) for v in data["violations"]["C18"]]
     return {"coverage": cov, "violations": vs,
             "assumptions": ["helpers are deterministic pure functions of their array arguments",
                             "stand-in results object exposes exactly the attributes the helper reads"]}
 
 
 def replay(rp):
+    if "opts" in rp:
+        from .. import pipeline
+        return pipeline.replay("C18", rp)
     P = _params()
     fn = rp["fn"]
     if fn == "fill":
